@@ -30,13 +30,23 @@ class FrameworkError(Exception):
     pass
 
 
+def _die_with_parent():
+    """children are killed when the check process dies (e.g. an outer `timeout`), so no orphan JVM keeps a core busy"""
+    try:
+        import ctypes
+        import signal
+        ctypes.CDLL("libc.so.6").prctl(1, signal.SIGKILL)   # PR_SET_PDEATHSIG
+    except Exception:
+        pass
+
+
 def sh(cmd, timeout=None, env=None, cwd=None, check=False, inp=None):
     e = dict(os.environ)
     if env:
         e.update(env)
     try:
         p = subprocess.run(cmd, shell=isinstance(cmd, str), stdout=subprocess.PIPE, stderr=subprocess.PIPE,
-                           timeout=timeout, env=e, cwd=cwd, input=inp)
+                           timeout=timeout, env=e, cwd=cwd, input=inp, preexec_fn=_die_with_parent)
     except subprocess.TimeoutExpired as ex:
         class R:
             pass
